@@ -37,6 +37,7 @@ const (
 	sigF11      = "pingpong/local-reset:connection-repooled"
 	sigCloseH1  = "http1/pool-close:self-deadlock-with-idle-connection"
 	sigClosePP  = "pingpong/pool-close:self-deadlock-with-idle-connection"
+	sigMuxGA    = "mux/goaway-then-connection-close:stream-reset-self-deadlock"
 	partSeq     = "seq"
 	partConc    = "conc"
 	partMinimal = "minimal"
@@ -453,6 +454,24 @@ func (r *run) newToken() string {
 
 // lease performs NewStream + send and integrates the observed outcome into the model.
 func (r *run) lease() *failure {
+	// The multiplex pool replaces a lost connection asynchronously and offers no books to tell when it
+	// is done: right after a close one request may still fail (as in the proxy, which then retries).
+	// Capacity "becomes available again" is judged over up to three tries.
+	tries := 1
+	if r.h.Kind == pool.Mux && r.mode == pool.ModeAccept && !r.shut {
+		tries = 3
+	}
+	for i := 1; ; i++ {
+		soft, f := r.leaseOnce(i == tries)
+		if f != nil || !soft || i == tries {
+			return f
+		}
+		r.class("mux-lease-retried")
+	}
+}
+
+// leaseOnce: soft reports a failed try on the multiplex pool that may be retried.
+func (r *run) leaseOnce(last bool) (soft bool, _ *failure) {
 	tok := r.newToken()
 	reqOver, connOver := r.capacity()
 	hadIdle := len(r.idle)
@@ -463,30 +482,33 @@ func (r *run) lease() *failure {
 	res := r.rig.Lease(tok, initWait)
 	r.out.leases++
 	if res.Hang != nil {
-		return r.hang(res.Hang)
+		return false, r.hang(res.Hang)
 	}
 	switch {
 	case res.NotInit:
 		r.logf("lease %s: multiplex pool has no connection (CheckAndInit stayed false)", tok)
 		if r.mode == pool.ModeAccept && !r.shut {
-			return r.failf(true, "multiplex-never-connects", "CheckAndInit did not turn true within %v although the upstream accepts connections; model: %s", initWait, r.describe())
+			if !last {
+				return true, nil
+			}
+			return false, r.failf(true, "multiplex-never-connects", "CheckAndInit did not turn true within %v although the upstream accepts connections; model: %s", initWait, r.describe())
 		}
 		r.class("conn-failure")
-		return r.settle("lease-no-connection")
+		return false, r.settle("lease-no-connection")
 	case res.Reason == types.Overflow:
 		r.logf("lease %s: Overflow (spec: requests over=%v connections over=%v)", tok, reqOver, connOver)
 		r.sawOverflow = true
 		r.class("overflow")
 		if !reqOver && !connOver {
 			if r.leaked() > 0 && r.h.MaxConn > 0 && r.live()+r.leaked() >= int(r.h.MaxConn) && r.known(sigF10) {
-				return r.settle("lease-overflow")
+				return false, r.settle("lease-overflow")
 			}
 			f := r.failf(false, "capacity-not-available", "NewStream answered Overflow although capacity is free (active requests %d (+ other hosts) of max_requests %d; live connections %d of max_connections %d, idle %d); model: %s",
 				len(r.active()), r.h.MaxReq, r.live(), r.h.MaxConn, hadIdle, r.describe())
 			if r.leaked() > 0 {
 				f.sig = sigF10
 			}
-			return f
+			return false, f
 		}
 		if reqOver {
 			r.class("overflow-requests")
@@ -497,17 +519,20 @@ func (r *run) lease() *failure {
 			// NewStream returned: the books are final. F10: the client obtained before the max_requests
 			// test is neither used nor given back.
 			if f, explained := r.absorbF10(hadIdle); explained && f != nil {
-				return f
+				return false, f
 			}
 		}
-		return r.settle("lease-overflow")
+		return false, r.settle("lease-overflow")
 	case res.Reason != "":
 		r.logf("lease %s: %s", tok, res.Reason)
 		r.class("conn-failure")
 		if r.mode == pool.ModeAccept && hadIdle == 0 {
-			return r.failf(false, "connection-failure-with-reachable-upstream", "NewStream answered %s although the upstream accepts connections; model: %s", res.Reason, r.describe())
+			if r.h.Kind == pool.Mux && !last {
+				return true, r.settle("lease-connection-failure")
+			}
+			return false, r.failf(r.h.Kind == pool.Mux, "connection-failure-with-reachable-upstream", "NewStream answered %s although the upstream accepts connections; model: %s", res.Reason, r.describe())
 		}
-		return r.settle("lease-connection-failure")
+		return false, r.settle("lease-connection-failure")
 	}
 	// admitted
 	s := &mstream{n: len(r.strs), token: tok, st: res.Stream, state: sActive}
@@ -517,15 +542,25 @@ func (r *run) lease() *failure {
 	}
 	// acknowledgement: the request reached the upstream, or the stream died
 	arrived := false
-	ok := waitEither(r.d, func() bool {
+	wait := r.d
+	if r.mode != pool.ModeAccept || (r.h.Kind == pool.Mux && !last) {
+		wait = r.d / 10 // a refusing upstream never reads the request; a multiplex try may be repeated
+	}
+	ok := waitEither(wait, func() bool {
 		if q := r.rig.Up.Req(tok); q != nil {
 			arrived = true
 			return true
 		}
 		return s.st.State().Destroyed > 0
 	})
+	if !ok && (r.mode != pool.ModeAccept || (r.h.Kind == pool.Mux && !last)) {
+		// The request was queued on a connection that died at that moment; MOSN reports no error for it
+		// (connection.Write only enqueues) and no reset reaches the stream. The proxy ends such a request
+		// by its timeout: so does the harness. (Not a C09 matter; recorded as a class.)
+		return r.h.Kind == pool.Mux && r.mode == pool.ModeAccept, r.timeoutLost(s)
+	}
 	if !ok {
-		return r.failf(true, "request-never-sent", "request %q was admitted (send error %q) but neither reached the upstream nor was its stream reset within %v; model: %s", tok, res.SendErr, r.d, r.describe())
+		return false, r.failf(true, "request-never-sent", "request %q was admitted (send error %q) but neither reached the upstream nor was its stream reset within %v; model: %s", tok, res.SendErr, r.d, r.describe())
 	}
 	if !arrived {
 		// the connection died under the request (refusing upstream)
@@ -534,12 +569,15 @@ func (r *run) lease() *failure {
 		s.state = sFailed
 		r.class("refused")
 		if r.mode == pool.ModeAccept && !r.shut {
-			return r.failf(false, "lease-failed-on-healthy-upstream", "request %q was admitted but its stream was reset (%v) without reaching the accepting upstream; model: %s", tok, st.Resets, r.describe())
+			if r.h.Kind == pool.Mux && !last {
+				return true, r.settle("lease-refused")
+			}
+			return false, r.failf(r.h.Kind == pool.Mux, "lease-failed-on-healthy-upstream", "request %q was admitted but its stream was reset (%v) without reaching the accepting upstream; model: %s", tok, st.Resets, r.describe())
 		}
 		if hadIdle > 0 && r.pingpong() {
-			return r.failf(false, "lease-failed-on-idle-connection", "request %q was given an idle connection that was already dead (resets %v); model: %s", tok, st.Resets, r.describe())
+			return false, r.failf(false, "lease-failed-on-idle-connection", "request %q was given an idle connection that was already dead (resets %v); model: %s", tok, st.Resets, r.describe())
 		}
-		return r.settle("lease-refused")
+		return false, r.settle("lease-refused")
 	}
 	q := r.rig.Up.Req(tok)
 	s.atUp, s.open = true, true
@@ -561,16 +599,16 @@ func (r *run) lease() *failure {
 		case mc.leaked:
 			// our guess which idle client the pool dropped was wrong: swap roles with the newest idle one
 			if len(r.idle) == 0 {
-				return r.failf(false, "model-lost-track", "request %q used c%d which the model took for leaked, and no idle connection is left to swap", tok, q.Conn)
+				return false, r.failf(false, "model-lost-track", "request %q used c%d which the model took for leaked, and no idle connection is left to swap", tok, q.Conn)
 			}
 			other := r.idle[len(r.idle)-1]
 			r.dropIdle(other)
 			other.leaked, other.state = true, cIdle
 			mc.leaked, mc.state, mc.stream = false, cLeased, s
 		case mc.state == cLeased:
-			return r.failf(false, "connection-leased-twice", "request %q was sent on c%d which is leased to request %q", tok, q.Conn, mc.stream.token)
+			return false, r.failf(false, "connection-leased-twice", "request %q was sent on c%d which is leased to request %q", tok, q.Conn, mc.stream.token)
 		default:
-			return r.failf(false, "closed-connection-reused", "request %q was sent on c%d which the model holds closed", tok, q.Conn)
+			return false, r.failf(false, "closed-connection-reused", "request %q was sent on c%d which the model holds closed", tok, q.Conn)
 		}
 		s.conn = mc
 		if mc.dirty > 0 {
@@ -592,7 +630,19 @@ func (r *run) lease() *failure {
 		r.class("overflow-then-lease")
 		r.out.nontrivial = true
 	}
-	return r.settle("lease")
+	return false, r.settle("lease")
+}
+
+// timeoutLost: the harness, as the proxy would on its per-try timeout, resets a request that was
+// silently lost with its dying connection.
+func (r *run) timeoutLost(s *mstream) *failure {
+	r.logf("request %s lost with its connection: local reset (timeout)", s.token)
+	r.class("lost-request-timeout")
+	if h := r.rig.Reset(s.st); h != nil {
+		return r.hang(h)
+	}
+	s.state = sReset
+	return r.settle("lost-request-timeout")
 }
 
 func waitEither(d time.Duration, cond func() bool) bool {
@@ -801,6 +851,9 @@ func (r *run) upclose(c *mconn, rst bool) *failure {
 	}
 	for _, s := range victims {
 		if !s.st.Wait(r.d, func(st pool.StreamState) bool { return st.Destroyed > 0 }) {
+			if f := r.muxGoAwayDeadlock(c); f != nil {
+				return f
+			}
 			return r.failf(true, "lease-survives-connection-close", "the upstream closed c%d but the stream of request %q was not reset within %v; model: %s", c.id, s.token, r.d, r.describe())
 		}
 		st := s.st.State()
@@ -814,6 +867,20 @@ func (r *run) upclose(c *mconn, rst bool) *failure {
 	return r.settle(name)
 }
 
+// muxGoAwayDeadlock: structural evidence (not elapsed time) that the connection's event goroutine
+// re-locks the stream connection's mutex it already holds.
+func (r *run) muxGoAwayDeadlock(c *mconn) *failure {
+	if r.h.Kind != pool.Mux {
+		return nil
+	}
+	st := pool.FindStack("(*streamConn).Reset", "(*activeClientMultiplex).OnDestroyStream", "(*streamConn).ActiveStreamsNum", "RWMutex).RLock")
+	if st == "" {
+		return nil
+	}
+	r.dead = true
+	return &failure{sig: sigMuxGA, step: r.step, msg: fmt.Sprintf("the upstream sent GoAway on multiplex connection c%d and then closed it while requests were in flight: streamConn.Reset holds clientMutex while it resets the streams; the pool's OnDestroyStream (state GoAway) calls ActiveRequestsNum -> ActiveStreamsNum, which RLocks the same mutex on the same goroutine. The connection's event goroutine is stuck for good, the remaining streams are never reset and their request slots never released. Stack:\n%s\nmodel: %s", c.id, trimStack(st), r.describe())}
+}
+
 func (r *run) goaway(c *mconn) *failure {
 	r.logf("goaway on c%d", c.id)
 	r.class("goaway")
@@ -822,6 +889,7 @@ func (r *run) goaway(c *mconn) *failure {
 	}
 	if !r.pingpong() {
 		// multiplex: the pool replaces the connection; when it closes the old one is up to it
+		c.either = true
 		time.Sleep(300 * time.Microsecond)
 		return r.settle("goaway")
 	}
@@ -874,6 +942,15 @@ func (r *run) closePool() *failure {
 			r.logf("pool.Close() skipped: listed self-deadlock with %d idle connections", len(r.idle))
 			r.class("close-skipped-known-deadlock")
 			return nil
+		}
+	}
+	if r.h.Kind == pool.Mux {
+		for _, s := range r.active() {
+			if s.conn != nil && s.conn.either && s.conn.state != cClosed && r.known(sigMuxGA) {
+				r.logf("pool.Close() skipped: listed deadlock when a go-away multiplex connection closes under requests")
+				r.class("skipped-known-mux-goaway-close")
+				return nil
+			}
 		}
 	}
 	r.logf("pool.Close()")
@@ -937,6 +1014,28 @@ func (r *run) openConns() []*mconn {
 	return out
 }
 
+// closable: connections the upstream may close. When the multiplex GoAway deadlock is a listed
+// finding, a go-away connection with requests in flight is left alone (excluded by construction).
+func (r *run) closable() []*mconn {
+	var out []*mconn
+	for _, c := range r.openConns() {
+		if r.h.Kind == pool.Mux && c.either {
+			inflight := false
+			for _, s := range r.active() {
+				if s.conn == c {
+					inflight = true
+				}
+			}
+			if inflight && r.known(sigMuxGA) {
+				r.class("skipped-known-mux-goaway-close")
+				continue
+			}
+		}
+		out = append(out, c)
+	}
+	return out
+}
+
 func pick(n, raw int) int {
 	if raw < 0 {
 		raw = -raw
@@ -952,6 +1051,9 @@ func (r *run) do(op Op) (f *failure, skipped bool) {
 	case "reply", "reply-close":
 		c := r.replyable()
 		if len(c) == 0 {
+			if op.K == "reply" && len(r.active()) == 0 {
+				return r.lease(), false // nothing in flight: make progress instead of skipping
+			}
 			return nil, true
 		}
 		s := c[pick(len(c), op.A)]
@@ -964,16 +1066,14 @@ func (r *run) do(op Op) (f *failure, skipped bool) {
 			} else {
 				opt.GoAway = true
 				r.class("goaway")
-				if r.pingpong() {
-					s.conn.either = true
-				}
+				s.conn.either = true
 			}
 		}
 		return r.reply(s, opt, name), false
 	case "reset":
 		c := r.active()
 		if len(c) == 0 {
-			return nil, true
+			return r.lease(), false
 		}
 		return r.reset(c[pick(len(c), op.A)]), false
 	case "late":
@@ -983,7 +1083,7 @@ func (r *run) do(op Op) (f *failure, skipped bool) {
 		}
 		return r.late(c[pick(len(c), op.A)]), false
 	case "upclose", "uprst":
-		c := r.openConns()
+		c := r.closable()
 		if len(c) == 0 {
 			return nil, true
 		}
